@@ -231,7 +231,7 @@ func sweep(rep *Report, prop *Prop, tier string) {
 // SweepAll is a development aid (never a registered command): it generates the
 // variants of every function analysed by any property whose package path has
 // the given prefix and lists those that NO property reports.
-func SweepAll(pkgPrefix string, max int) int {
+func SweepAll(pkgPrefix string, max int, benign bool) int {
 	type base struct {
 		prop *Prop
 		sig  map[string]bool
@@ -259,6 +259,9 @@ func SweepAll(pkgPrefix string, max int) int {
 		bases = append(bases, base{p, rep.signature()})
 	}
 	vars := genVariants(prog, fns)
+	if benign {
+		vars = genBenignVariants(prog, fns)
+	}
 	if max > 0 && len(vars) > max {
 		step := float64(len(vars)) / float64(max)
 		var thin []variant
@@ -335,7 +338,9 @@ func SweepAll(pkgPrefix string, max int) int {
 			nk++
 		case len(r.by) == 0:
 			ns++
-			fmt.Printf("SURVIVES  %s %s\n", r.v.pos, r.v.desc)
+			if !benign {
+				fmt.Printf("SURVIVES  %s %s\n", r.v.pos, r.v.desc)
+			}
 		default:
 			onlyUndec := true
 			for _, b := range r.by {
@@ -348,9 +353,17 @@ func SweepAll(pkgPrefix string, max int) int {
 				fmt.Printf("UNDECIDED %s %s %v\n", r.v.pos, r.v.desc, r.by)
 			} else {
 				nd++
-				fmt.Printf("caught    %s %s %v\n", r.v.pos, r.v.desc, r.by)
+				if benign {
+					fmt.Printf("FALSE-ALARM %s %s %v\n", r.v.pos, r.v.desc, r.by)
+				} else {
+					fmt.Printf("caught    %s %s %v\n", r.v.pos, r.v.desc, r.by)
+				}
 			}
 		}
+	}
+	if benign {
+		fmt.Printf("benign sweep %s: %d variants silent, %d FALSE ALARMS, %d undecided only, %d do not compile\n", pkgPrefix, ns, nd, nu, nk)
+		return 0
 	}
 	fmt.Printf("sweep-all %s: %d caught, %d undecided only, %d survive, %d do not compile\n", pkgPrefix, nd, nu, ns, nk)
 	return 0
